@@ -335,7 +335,7 @@ def directed():
   progs.append([create, {'c': 'request', 'params': 7, 'md': []}, {'c': 'add_trial', 'params': 8, 'final': None},
                 {'c': 'suggest', 'count': 1, 'worker': 'w1', 'alg': ok(10, 1)}, {'c': 'suggest', 'count': 1, 'worker': 'w2', 'alg': ok(20, 1)},
                 {'c': 'get_suggestions', 'count': 1, 'alg': ok(30, 1)}, {'c': 'trials'}])
-  for kind in ('other', 'rpc'):
+  for kind in ('other',):
     progs.append([create, {'c': 'suggest', 'count': 1, 'worker': 'w1', 'alg': {'kind': kind}},
                   {'c': 'suggest', 'count': 2, 'worker': 'w1', 'alg': ok(10, 1)}, {'c': 'suggest', 'count': 3, 'worker': 'w1', 'alg': {'kind': kind}},
                   {'c': 'suggest', 'count': 1, 'worker': 'w2', 'alg': {'kind': kind}}, {'c': 'trials'}])
@@ -399,7 +399,7 @@ class Gen:
     r = self.rng
     x = r.random()
     if x < FAIL_RATE[self.prop]:
-      return {'kind': r.choice(['other', 'rpc'])}
+      return {'kind': 'other'}      # in-process Pythia: the algorithm's own exception (an RpcError needs a remote Pythia: C08)
     a = _ok(r, self.tok, count + r.choice([-2, -1, 0, 0, 0, 0, 1, 2, 3]))
     if r.random() < 0.12:
       a['delta'] = [{'t': None if r.random() < 0.6 else self.pick_id(by_state), 'kv': self.kvs()[0]}]
@@ -496,7 +496,7 @@ KEYS_WHAT = {
     'promised': ('client:promised-exception-or-value-missing',
                  'Study.get_trial / Study.from_resource_name of something that does not exist did not raise ResourceNotFoundError, suggest on a study that is not open did not return [], or add_trial outside the search space did not raise ValueError'),
     'effects': ('client:documented-effect-of-call-missing',
-                'a client call did not have its documented effect (add_trial / request store a new trial, complete stores / returns the given measurement, stop -> STOPPING, set_state stores the state, delete removes the trial, update_metadata of a missing trial raises RuntimeError)'),
+                'a client call did not have its documented effect (add_trial / request store a new trial, complete stores / returns the given measurement, stop -> STOPPING, set_state stores the state, delete removes the trial / the study, update_metadata of a missing trial raises RuntimeError)'),
     # the two documented behaviours the code as it exists does not have (known findings, kernel-checked counterexamples
     # client_complete_value_error_counterexample / client_early_stop_counterexample)
     'valueError': ('client:complete-with-nothing-to-select-does-not-raise-valueerror',
